@@ -38,6 +38,7 @@ type Profile struct {
 	ZeroScan   bool
 	HotSet     int  // pick objects mostly from the n oldest of their kind (so that operations pile up on few objects)
 	Own        []string // violation classes of the property being checked: only these (and a diverged reference) end a run
+	InodeExhaust bool // fill the inode table first (thorough tier of C08/C09)
 	DeleteAll  bool // C05: delete everything at the end; only the root may remain
 }
 
@@ -775,6 +776,9 @@ func runSeq(p Profile, seed uint64, cas int) *SeqRes {
 	if p.ManyObjs > 0 {
 		s.prepopulate(p.ManyObjs)
 	}
+	if p.InodeExhaust {
+		s.exhaustInodes()
+	}
 	if p.NearFull {
 		s.fillDisk()
 	}
@@ -1205,4 +1209,28 @@ func (s *Sess) genSteer() *Op {
 		}
 	}
 	return s.genOp()
+}
+
+// exhaustInodes creates files until the inode table is full, then frees a
+// few numbers spread over the table (so that later allocations reuse them and
+// the table stays nearly exhausted).
+func (s *Sess) exhaustInodes() {
+	r := s.exec(&Op{K: OpMkdir, H: s.srv.Root, Name: "many"})
+	if r.Stat != stOK {
+		return
+	}
+	dfh := r.FH
+	n := 0
+	for ; n < 40000; n++ {
+		c := doOp(s.srv.API, &Op{K: OpCreate, H: dfh, Name: fmt.Sprintf("i%05d", n)})
+		if c.Stat != stOK {
+			break
+		}
+		// keep the reference in step without logging 32 k operations
+		s.m.Apply(&Op{K: OpCreate, H: dfh, Name: fmt.Sprintf("i%05d", n)}, c)
+	}
+	s.res.Stats.Add(fmt.Sprintf("inode-table-filled/%d", n/1000*1000))
+	for i := 0; i < n; i += n/40 + 1 {
+		s.exec(&Op{K: OpRemove, H: dfh, Name: fmt.Sprintf("i%05d", i)})
+	}
 }
